@@ -167,7 +167,10 @@ Inductive op :=
 | OFromStreams (l : list nat)                           (* MultiStream.from_streams([streams l]) appended to the store *)
 | OResetFlow (i : nat) (p : option phase) (u : option nat) (tot : option Q) (fl : list (nat * Q))
                                                         (* s.reset_flow(phase, units, total_flow, **flows), single-phase *)
-| OSub (i r : nat).                                     (* ms[phase r]: the phase stream of a MultiStream (created once) *)
+| OSub (i r : nat)                                      (* ms[phase r]: the phase stream of a MultiStream (created once) *)
+| OEmpty (i : nat)                                      (* s.empty(): every molar dict of the stream is cleared *)
+| OResetFlowM (i : nat) (tot : option Q) (u : nat) (l : option (list phase)) (pf : list (phase * list (nat * Q))).
+                                                        (* ms.reset_flow(total_flow, units, phases, **phase_flows), multi-phase *)
 
 Section Model.
 Variable Vf : nat -> phase -> Q -> Q -> Q.       (* molar volume oracle: chemical, phase in {g,l,s}, T, P *)
@@ -444,9 +447,101 @@ Fixpoint expand_rows h (n : nat) (ps : list phase) (old : list (phase * nat)) : 
       end
   end.
 
+(* chemicals.index(CAS): a chemical id is 8 * variant + CAS number, so that two Chemical objects with one CAS
+   (another molar-volume model, another MW) can sit in different packages *)
+Definition cas (g : nat) : nat := Nat.modulo g 8.
+Definition remap (oldc newc : list nat) (v : vec) : vec :=
+  map (fun g => match index_of (cas g) (map cas oldc) with Some j => nthq v j | None => 0 end) newc.
+
+(* ---------- copy_like from a stream of ANOTHER property package (indexer.py:600-609, :774-810) ----------
+   index_overlap(self.chemicals, other.chemicals, non-zero keys of other): a chemical with a non-zero flow that the
+   receiver's package lacks raises UndefinedChemicalAlias; otherwise  self.data[left_index] = other.data[right_index]
+   on the emptied receiver, i.e. the values follow their CAS number *)
+Definition xmiss (co cs : list nat) (v : vec) : bool :=
+  existsb (fun gx => negb (qzerob (snd gx)) &&
+                     match index_of (cas (fst gx)) (map cas cs) with Some _ => false | None => true end)
+          (combine co v).
+Fixpoint copy_rows_like_x h (f : vec -> vec) (dst src : list nat) : heap :=   (* for i, j in other: rows[...][left] = j[right] *)
+  match dst, src with
+  | d :: dt, x :: xt => copy_rows_like_x (put_row h d (f (getrow h x))) f dt xt
+  | _, _ => h
+  end.
+Definition copy_like_x h i s o : heap * outcome :=
+  let co := chems (pkg o) in
+  let cs := chems (pkg s) in
+  match multi s, multi o with
+  | false, false =>
+      (* ChemicalIndexer.copy_like: self.empty(); index_overlap; data; self.phase = other.phase; then T, P *)
+      let h0 := empty_all h s in
+      let v := getrow h0 (sdata o) in
+      if xmiss co cs v then (h0, XErr EOther)
+      else let h1 := put_row h0 (sdata s) (remap co cs v) in
+           let h2 := put_box h1 (pbox s) (getbox h1 (pbox o)) in
+           (copy_tp h2 s o, XNone)
+  | false, true =>
+      match phs o with
+      | [p] =>
+          let h0 := empty_all h s in
+          let v := nth O (all_rows h0 o) [] in
+          if xmiss co cs v then (h0, XErr EOther)
+          else (copy_tp (put_box (put_row h0 (sdata s) (remap co cs v)) (pbox s) p) s o, XNone)
+      | _ =>
+        (* self.empty(); self.phases = other.phases; self._imol.copy_like(other._imol); TP *)
+        match single_to_multi (empty_all h s) i s (phs o) with
+        | (h1, XNone) =>
+            match nth_error (streams h1) i with
+            | Some s1 =>
+                if existsb (xmiss co cs) (all_rows h1 o) then (h1, XErr EOther)
+                else if phases_eqb (phs s1) (phs o)
+                then (copy_tp (copy_rows_like_x (empty_all h1 s1) (remap co cs) (rowrefs h1 s1) (rowrefs h1 o)) s1 o, XNone)
+                else (h1, XDomain)
+            | None => (h1, XErr EIndex)
+            end
+        | r => r
+        end
+      end
+  | true, false =>
+      (* MaterialIndexer.copy_like(ChemicalIndexer): empty, expand the phases if needed, THEN index_overlap *)
+      let p := getbox h (pbox o) in
+      let v := getrow h (sdata o) in
+      let h0 := empty_all h s in
+      match pindex (phs s) p with
+      | Some k =>
+          match nth_error (rowrefs h0 s) k with
+          | Some d => if xmiss co cs v then (h0, XErr EOther)
+                      else (copy_tp (put_row h0 d (remap co cs v)) s o, XNone)
+          | None => (h0, XErr EIndex)
+          end
+      | None =>
+          if stream_shares_arr h i (sdata s) then (h, XDomain)
+          else
+            let ps := psort (p :: phs s) in
+            let '(rs, h1) := expand_rows h0 (nchem (pkg s)) ps (combine (phs s) (getarr h0 (sdata s))) in
+            let h2 := put_arr h1 (sdata s) rs in
+            let h3 := put_cache h2 (cch s) cache0 in
+            let s1 := mkstream true (sdata s) (pbox s) ps (pkg s) (cch s) (tc s) in
+            let h4 := put_stream h3 i s1 in
+            match pindex ps p with
+            | Some k =>
+                match nth_error rs k with
+                | Some d => if xmiss co cs v then (h4, XErr EOther)
+                            else (copy_tp (put_row h4 d (remap co cs v)) s1 o, XNone)
+                | None => (h4, XErr EIndex)
+                end
+            | None => (h4, XErr EUndefPhase)
+            end
+      end
+  | true, true =>
+      (* MaterialIndexer.copy_like(MaterialIndexer): index_overlap FIRST, then empty and the rows phase by phase *)
+      if existsb (xmiss co cs) (all_rows h o) then (h, XErr EOther)
+      else if phases_eqb (phs s) (phs o)
+      then (copy_tp (copy_rows_like_x (empty_all h s) (remap co cs) (rowrefs h s) (rowrefs h o)) s o, XNone)
+      else (h, XDomain)           (* other phase sets: C13's subject *)
+  end.
+
 Definition copy_like h i s o (same : bool) : heap * outcome :=
   if same then (h, XNone)
-  else if negb (Nat.eqb (pkg s) (pkg o)) then (h, XDomain)
+  else if negb (Nat.eqb (pkg s) (pkg o)) then copy_like_x h i s o
   else match multi s, multi o with
   | false, false =>
       let h1 := put_row h (sdata s) (getrow h (sdata o)) in
@@ -599,11 +694,6 @@ Definition copy_row_view h s (w : view) (r1 r2 : nat) : heap * outcome :=
   end.
 
 (* Indexer.reset_chemicals: values follow their chemical; returns the old (data, cache) container *)
-(* chemicals.index(CAS): a chemical id is 8 * variant + CAS number, so that two Chemical objects with one CAS
-   (another molar-volume model, another MW) can sit in different packages *)
-Definition cas (g : nat) : nat := Nat.modulo g 8.
-Definition remap (oldc newc : list nat) (v : vec) : vec :=
-  map (fun g => match index_of (cas g) (map cas oldc) with Some j => nthq v j | None => 0 end) newc.
 
 Fixpoint put_rows h (dst : list nat) (vals : list vec) : heap :=
   match dst, vals with
@@ -794,6 +884,8 @@ Definition step h (o : op) : heap * outcome :=
   | OFromStreams l => from_streams h l
   | OResetFlow i p u tot fl => withs i (fun s => reset_flow h s p u tot fl)
   | OSub _ _ => (h, XDomain)          (* the registry of phase streams lives in the outermost layer (stepS) *)
+  | OEmpty i => withs i (fun s => (empty_all h s, XNone))
+  | OResetFlowM _ _ _ _ _ => (h, XDomain)   (* composed in the outermost layer (stepS): it goes through the phases setter *)
   end.
 
 Fixpoint run h (ops : list op) : heap * list outcome :=
@@ -1093,7 +1185,7 @@ Definition target_of (o : op) : option nat :=
   | _ => None
   end.
 
-Definition stepS S (o : op) : sstate * outcome :=
+Definition stepS0 S (o : op) : sstate * outcome :=
   let K := sk S in
   let h := uh (ku K) in
   let before i := nth_error (streams h) i in
@@ -1188,6 +1280,59 @@ Definition stepS S (o : op) : sstate * outcome :=
               end
             end
       end
+  end.
+(* ---------- MultiStream.reset_flow (_multi_stream.py:279-304) ----------
+   imol.empty(); self.phases = set(phase_flows) | {'l', 'g'} if phases is None else phases;
+   for phase, data in phase_flows.items(): self.set_flow(values, units, (phase, keys));
+   if total_flow: self.set_total_flow(total_flow, units)
+   -- a composition of operations of the model (each with its effects on every layer); the first one that raises ends it.
+   The phase label of every group of flows is resolved in the phases the stream has AFTER the phases setter. *)
+Fixpoint set_flows_row S (i u r : nat) (fl : list (nat * Q)) : sstate * outcome :=
+  match fl with
+  | [] => (S, XNone)
+  | (k, v) :: t => let '(S1, x) := stepS0 S (OSetFlow i u r k v) in
+                   if is_none x then set_flows_row S1 i u r t else (S1, x)
+  end.
+Fixpoint set_phase_flows S (i u : nat) (pf : list (phase * list (nat * Q))) : sstate * outcome :=
+  match pf with
+  | [] => (S, XNone)
+  | (p, fl) :: t =>
+      match nth_error (streams (s_heap S)) i with
+      | None => (S, XErr EIndex)
+      | Some s =>
+          match pindex (phs s) p with
+          | None => (S, XErr EUndefPhase)
+          | Some r => let '(S1, x) := set_flows_row S i u r fl in
+                      if is_none x then set_phase_flows S1 i u t else (S1, x)
+          end
+      end
+  end.
+Definition reset_flow_multi S (i : nat) (tot : option Q) (u : nat) (l : option (list phase))
+           (pf : list (phase * list (nat * Q))) : sstate * outcome :=
+  match nth_error (streams (s_heap S)) i with
+  | None => (S, XErr EIndex)
+  | Some s =>
+      let ps := match l with Some x => x | None => Pl :: Pg :: map fst pf end in
+      if negb (multi s) then (S, XDomain)
+      else match psort ps with
+           | _ :: _ :: _ =>
+               let '(S1, x1) := stepS0 S (OEmpty i) in
+               if negb (is_none x1) then (S1, x1) else
+               let '(S2, x2) := stepS0 S1 (OPhases i ps) in
+               if negb (is_none x2) then (S2, x2) else
+               let '(S3, x3) := set_phase_flows S2 i u pf in
+               if negb (is_none x3) then (S3, x3) else
+               match nonzero_opt tot with
+               | Some t => stepS0 S3 (OSetTotal i u t)
+               | None => (S3, XNone)
+               end
+           | _ => (S, XDomain)     (* fewer than two phases: the stream becomes single-phase half-way (C12's subject) *)
+           end
+  end.
+Definition stepS S (o : op) : sstate * outcome :=
+  match o with
+  | OResetFlowM i tot u l pf => reset_flow_multi S i tot u l pf
+  | _ => stepS0 S o
   end.
 Fixpoint runS S (ops : list op) : sstate * list outcome :=
   match ops with
